@@ -318,3 +318,147 @@ Theorem C18_glue_rs_matches_model :
   (forall w a, Glue.I_Zero_is_zero w a = NumTraits.T_is_zero a).
 Proof. exact glue_numtraits_matches_model. Qed.
 Print Assumptions C18_glue_rs_matches_model.
+
+(* ---------- the num-traits / num-integer implementations WITH CODE (src/buint/numtraits.rs, src/bint/numtraits.rs):
+   Integer (div_floor .. the binary gcd loop .. div_rem), the PrimInt shifts, fixpoint (higher-order), Roots (sqrt, cbrt,
+   nth_root), Signed - regenerated from the source on every run (tools/rs2v_nt.py -> Generated/NtGen.v) and proved equal
+   to the model functions the theorems above are about (Proofs/NtGenTie*.v).  `fuel` bounds the iterations of the
+   generated loops; the model's own budgets are gcd_fuel (gcd loop) and 2^fixpoint_depth (each loop of fixpoint), and its
+   `None` (budget exhausted) is excluded by C18_TU_gcd / C18_TU_sqrt .. above. ---------- *)
+From Bnum.Model Require Import Imp.
+From Bnum.Generated Require Import NtGen.
+From Bnum.Proofs Require Import NtGenTie.
+
+Theorem C18_nt_rs_matches_model :
+  (forall w N fuel a b, NtGen.U_div_floor w N fuel a b =
+     match TU_div_floor w a b with Ret r => Done r | Panic => Panicked end) /\
+  (forall w N fuel a b, NtGen.U_mod_floor w N fuel a b =
+     match TU_mod_floor w a b with Ret r => Done r | Panic => Panicked end) /\
+  (forall dbg w N a b fuel, (gcd_fuel w (length a) <= fuel)%nat ->
+     match TU_gcd dbg w a b with
+     | Some (Ret r) => NtGen.U_gcd dbg w N fuel a b = Done r
+     | Some Panic => NtGen.U_gcd dbg w N fuel a b = Panicked
+     | None => True
+     end) /\
+  (forall dbg w N a b, NtGen.U_gcd dbg w N (gcd_fuel w (length a)) a b =
+     match TU_gcd dbg w a b with Some (Ret r) => Done r | Some Panic => Panicked | None => NoFuel end) /\
+  (forall dbg w a b fuel, (gcd_fuel w (length a) <= fuel)%nat ->
+     match TU_lcm dbg w a b with
+     | Some (Ret r) => NtGen.U_lcm dbg w (Z.of_nat (length a)) fuel a b = Done r
+     | Some Panic => NtGen.U_lcm dbg w (Z.of_nat (length a)) fuel a b = Panicked
+     | None => True
+     end) /\
+  (forall w N fuel a b, NtGen.U_is_multiple_of w N fuel a b =
+     match TU_is_multiple_of w a b with Ret r => Done r | Panic => Panicked end) /\
+  (forall w N fuel a b, NtGen.U_divides w N fuel a b =
+     match TU_divides w a b with Ret r => Done r | Panic => Panicked end) /\
+  (forall w N fuel a, (0 < length a)%nat -> NtGen.U_is_even w N fuel a = Done (TU_is_even a)) /\
+  (forall w N fuel a, (0 < length a)%nat -> NtGen.U_is_odd w N fuel a = Done (TU_is_odd a)) /\
+  (forall w N fuel a b, NtGen.U_div_rem w N fuel a b =
+     match TU_div_rem w a b with Ret r => Done r | Panic => Panicked end) /\
+  (forall dbg w N fuel a k, NtGen.U_signed_shl dbg w N fuel a k =
+     match TU_signed_shl dbg w a k with Ret r => Done r | Panic => Panicked end) /\
+  (forall dbg w N fuel a k, NtGen.U_signed_shr dbg w N fuel a k =
+     match TU_signed_shr dbg w a k with Ret r => Done r | Panic => Panicked end) /\
+  (forall dbg w N fuel a k, NtGen.U_unsigned_shl dbg w N fuel a k =
+     match TU_unsigned_shl dbg w a k with Ret r => Done r | Panic => Panicked end) /\
+  (forall dbg w N fuel a k, NtGen.U_unsigned_shr dbg w N fuel a k =
+     match TU_unsigned_shr dbg w a k with Ret r => Done r | Panic => Panicked end) /\
+  (forall depth w x max_bits (f : list Z -> outcome (list Z)) (f' : list Z -> res (list Z)) fuel,
+     (forall s, f' s = match f s with Ret r => Done r | Panic => Panicked end) -> (2 ^ depth <= fuel)%nat ->
+     match NumTraits.fixpoint depth w x max_bits f with
+     | Some (Ret r) => NtGen.fixpoint w (Z.of_nat (length x)) fuel x max_bits f' = Done r
+     | Some Panic => NtGen.fixpoint w (Z.of_nat (length x)) fuel x max_bits f' = Panicked
+     | None => True
+     end) /\
+  (forall dbg w a fuel, (2 ^ fixpoint_depth w (length a) <= fuel)%nat ->
+     match TU_sqrt dbg w a with
+     | Some (Ret r) => NtGen.U_sqrt dbg w (Z.of_nat (length a)) fuel a = Done r
+     | Some Panic => NtGen.U_sqrt dbg w (Z.of_nat (length a)) fuel a = Panicked
+     | None => True
+     end) /\
+  (forall dbg w a fuel, (2 ^ fixpoint_depth w (length a) <= fuel)%nat ->
+     match TU_cbrt dbg w a with
+     | Some (Ret r) => NtGen.U_cbrt dbg w (Z.of_nat (length a)) fuel a = Done r
+     | Some Panic => NtGen.U_cbrt dbg w (Z.of_nat (length a)) fuel a = Panicked
+     | None => True
+     end) /\
+  (forall dbg w a k fuel, 0 <= k -> (2 ^ fixpoint_depth w (length a) <= fuel)%nat ->
+     match TU_nth_root dbg w a k with
+     | Some (Ret r) => NtGen.U_nth_root dbg w (Z.of_nat (length a)) fuel a k = Done r
+     | Some Panic => NtGen.U_nth_root dbg w (Z.of_nat (length a)) fuel a k = Panicked
+     | None => True
+     end) /\
+  (forall dbg w N fuel a, NtGen.I_abs dbg w N fuel a =
+     match TI_abs dbg w a with Ret r => Done r | Panic => Panicked end) /\
+  (forall dbg w fuel a b, NtGen.I_abs_sub dbg w (Z.of_nat (length a)) fuel a b =
+     match TI_abs_sub dbg w a b with Ret r => Done r | Panic => Panicked end) /\
+  (forall w N fuel a, NtGen.I_signum w N fuel a = Done (TI_signum w a)) /\
+  (forall w N fuel a, NtGen.I_is_positive w N fuel a = Done (TI_is_positive w a)) /\
+  (forall w N fuel a, NtGen.I_is_negative w N fuel a = Done (TI_is_negative w a)) /\
+  (forall dbg w fuel a b, NtGen.I_div_floor dbg w (Z.of_nat (length a)) fuel a b =
+     match TI_div_floor dbg w a b with Ret r => Done r | Panic => Panicked end) /\
+  (forall dbg w N fuel a b, NtGen.I_mod_floor dbg w N fuel a b =
+     match TI_mod_floor dbg w a b with Ret r => Done r | Panic => Panicked end) /\
+  (forall dbg w N a b fuel, (gcd_fuel w (length a) <= fuel)%nat ->
+     match TI_gcd dbg w a b with
+     | Some (Ret r) => NtGen.I_gcd dbg w N fuel a b = Done r
+     | Some Panic => NtGen.I_gcd dbg w N fuel a b = Panicked
+     | None => True
+     end) /\
+  (forall dbg w a b fuel, (gcd_fuel w (length a) <= fuel)%nat ->
+     match TI_lcm dbg w a b with
+     | Some (Ret r) => NtGen.I_lcm dbg w (Z.of_nat (length a)) fuel a b = Done r
+     | Some Panic => NtGen.I_lcm dbg w (Z.of_nat (length a)) fuel a b = Panicked
+     | None => True
+     end) /\
+  (forall dbg w N fuel a b, NtGen.I_is_multiple_of dbg w N fuel a b =
+     match TI_is_multiple_of dbg w a b with Ret r => Done r | Panic => Panicked end) /\
+  (forall dbg w N fuel a b, NtGen.I_divides dbg w N fuel a b =
+     match TI_divides dbg w a b with Ret r => Done r | Panic => Panicked end) /\
+  (forall w N fuel a, (0 < length a)%nat -> NtGen.I_is_even w N fuel a = Done (TI_is_even a)) /\
+  (forall w N fuel a, (0 < length a)%nat -> NtGen.I_is_odd w N fuel a = Done (TI_is_odd a)) /\
+  (forall dbg w N fuel a b, NtGen.I_div_rem dbg w N fuel a b =
+     match TI_div_rem dbg w a b with Ret r => Done r | Panic => Panicked end) /\
+  (forall dbg w N fuel a k, NtGen.I_signed_shl dbg w N fuel a k =
+     match TI_signed_shl dbg w a k with Ret r => Done r | Panic => Panicked end) /\
+  (forall dbg w N fuel a k, NtGen.I_signed_shr dbg w N fuel a k =
+     match TI_signed_shr dbg w a k with Ret r => Done r | Panic => Panicked end) /\
+  (forall dbg w N fuel a k, NtGen.I_unsigned_shl dbg w N fuel a k =
+     match TI_unsigned_shl dbg w a k with Ret r => Done r | Panic => Panicked end) /\
+  (forall dbg w N fuel a k, NtGen.I_unsigned_shr dbg w N fuel a k =
+     match TI_unsigned_shr dbg w a k with Ret r => Done r | Panic => Panicked end) /\
+  (forall dbg w a fuel, (2 ^ fixpoint_depth w (length a) <= fuel)%nat ->
+     match TI_sqrt dbg w a with
+     | Some (Ret r) => NtGen.I_sqrt dbg w (Z.of_nat (length a)) fuel a = Done r
+     | Some Panic => NtGen.I_sqrt dbg w (Z.of_nat (length a)) fuel a = Panicked
+     | None => True
+     end) /\
+  (forall dbg w a fuel, (2 ^ fixpoint_depth w (length a) <= fuel)%nat ->
+     match TI_cbrt dbg w a with
+     | Some (Ret r) => NtGen.I_cbrt dbg w (Z.of_nat (length a)) fuel a = Done r
+     | Some Panic => NtGen.I_cbrt dbg w (Z.of_nat (length a)) fuel a = Panicked
+     | None => True
+     end) /\
+  (forall dbg w a k fuel, 0 <= k -> (2 ^ fixpoint_depth w (length a) <= fuel)%nat ->
+     match TI_nth_root dbg w a k with
+     | Some (Ret r) => NtGen.I_nth_root dbg w (Z.of_nat (length a)) fuel a k = Done r
+     | Some Panic => NtGen.I_nth_root dbg w (Z.of_nat (length a)) fuel a k = Panicked
+     | None => True
+     end).
+Proof. exact nt_rs_matches_model. Qed.
+Print Assumptions C18_nt_rs_matches_model.
+
+(* the three callees that Generated/NtGen.v reaches through LOCAL models of Model/NumTraits.v (to_u128; From<u32> / From<u128>
+   by `.into()`) agree with the models their source is tied to elsewhere (C19: Proofs/ConvGenTieC19.v; C13: Proofs/LoopsTieC13.v),
+   to_u128 for the digit widths of Rust; the two models of From<$uint> for every value, width, digit count and build mode *)
+From Bnum.Model Require Convert NumConv.
+From Bnum.Proofs Require Import NtGenTieDeps.
+
+Theorem C18_nt_local_models_agree :
+  (forall dbg w n a, 0 < w -> (0 < n)%nat -> wf w n a -> 128 < w \/ (w | 128) ->
+     NumTraits.U_to_u128 w a = NumConv.U_to_int dbg 128 false w a) /\
+  (forall dbg w n v, 0 < w -> NumTraits.U_from_u32 w n v = Convert.U_from_uint dbg 32 w n v) /\
+  (forall dbg w n v, 0 < w -> NumTraits.U_from_u128 w n v = Convert.U_from_uint dbg 128 w n v).
+Proof. exact nt_local_models_agree. Qed.
+Print Assumptions C18_nt_local_models_agree.
